@@ -283,8 +283,10 @@ class SegmMachine(Machine):
 
     def _gen_query(self, rng, st, k):
         a = st.actors[k]
-        name = rng.pick(['get_index', 'get_indices', 'get_area', 'get_areas',
-                         'check_labels', 'make_source_mask', 'make_cmap'])
+        name = rng.wpick(['get_index', 'get_indices', 'get_area', 'get_areas',
+                          'check_labels', 'make_source_mask', 'make_cmap',
+                          'patches_regions', 'segment_methods', 'bad_slice'],
+                         [3, 3, 3, 3, 3, 3, 2, 0.4, 1, 1])
         q = {'op': 'query', 'actor': k, 'name': name}
         if name in ('get_index', 'get_area'):
             q['labels'] = self._pick_labels(rng, a, st, many=False)
@@ -725,6 +727,44 @@ class SegmMachine(Machine):
             if size is None and not isinstance(out, Raised) and not \
                     np.array_equal(out, M != 0):
                 raise Violation('definition', name, 'mask != (data != 0)')
+        elif name == 'patches_regions':
+            # one patch / region per connected region of every label
+            nreg = sum(int(_cc(M == l).max()) for l in labs)
+            for meth in ('to_patches', 'to_regions'):
+                out = self._with_flags(st, lambda: call(getattr(obj, meth)))
+                if isinstance(out, Raised):
+                    raise Violation('raises', meth, repr(out))
+                if len(out) != nreg:
+                    raise Violation('definition', meth,
+                                    f'{len(out)} items for {nreg} connected '
+                                    f'regions of {len(labs)} labels')
+        elif name == 'segment_methods':
+            segs = self._with_flags(st, lambda: call(getattr, obj,
+                                                     'segments'))
+            if isinstance(segs, Raised):
+                raise Violation('raises', 'segments', repr(segs))
+            img = np.arange(M.size, dtype=float).reshape(M.shape)
+            for l, seg in zip(labs, segs):
+                cut = call(seg.make_cutout, img, masked_array=True)
+                if isinstance(cut, Raised):
+                    raise Violation('raises', 'Segment.make_cutout',
+                                    repr(cut))
+                exp_mask = M[seg.slices] != l
+                if not (np.array_equal(np.ma.getmaskarray(cut), exp_mask)
+                        and np.array_equal(np.ma.getdata(cut),
+                                           img[seg.slices])):
+                    raise Violation('definition', 'Segment.make_cutout',
+                                    f'label {l}')
+                dm = call(getattr, seg, 'data_ma')
+                if isinstance(dm, Raised) or not np.array_equal(
+                        np.ma.getmaskarray(dm), exp_mask):
+                    raise Violation('definition', 'Segment.data_ma',
+                                    f'label {l}')
+        elif name == 'bad_slice':
+            out = call(lambda: obj[1])
+            st.stats.fault('reject')
+            if not isinstance(out, Raised):
+                raise Violation('reject', 'getitem', 'obj[1] accepted')
         elif name == 'make_cmap':
             out = call(obj.make_cmap, seed=op['seed'])
             exp = call(self._fresh(st, a).make_cmap, seed=op['seed'])
